@@ -1,10 +1,10 @@
 (* C07 case runner.
-   case:   "C07 bin  <maxvec,cap_txin,cap_txout,cap_vecu8,cap_h32> <pt> <pk> <xonly> <btctx> <xpub> <rip> <h160> <hex of the PSET bytes>"
-           "C07 text <caps> <pt> <pk> <xonly> <btctx> <xpub> <rip> <h160> <base64 text | ->"
-           "C07 vcanon <caps> <pt> <pk> <xonly> <btctx> <xpub> <rip> <h160> <type name> <hex value>"      (one value canoniser)
+   case:   "C07 bin  <maxvec,cap_txin,cap_txout,cap_vecu8,cap_h32> <pt> <pk> <xonly> <rip> <h160> <hex of the PSET bytes>"
+           "C07 text <caps> <pt> <pk> <xonly> <rip> <h160> <base64 text | ->"
+           "C07 vcanon <caps> <pt> <pk> <xonly> <rip> <h160> <type name> <hex value>"      (one value canoniser)
            "C07 elip  <caps> ... <hex of PSET bytes> <hex asset id> <hex metadata value> <subtype 0|1>"   (ELIP-100 add/get + round trip)
-   oracles: <pt> <pk> <xonly> <btctx> <xpub> are comma separated hex lists of the byte strings the libraries accept
-            (secp256k1-zkp commitments/generators, public keys, x-only keys, bitcoin transactions, xpubs);
+   oracles: <pt> <pk> <xonly> are comma separated hex lists of the byte strings the libraries accept
+            (secp256k1-zkp commitments/generators, public keys, x-only keys);
             <rip> <h160> are lists "<hex preimage>:<hex digest>" of RIPEMD160 / HASH160 values; SHA256 and HASH256 are computed.
    result: "ok <hex of serialize(deserialize(input))> <'=' | hex of the second re-encoding>"  |  "err <class>"
            text: "ok <base64 of the re-encoding>" | "err b64" | "err <class>" *)
@@ -31,28 +31,28 @@ Definition show_err (e : perr) : bytes :=
   match e with EDup => "err dup"%lb | EMissing => "err missing"%lb | EVersion => "err version"%lb | EPreimage => "err preimage"%lb
              | ETooLarge => "err toolarge"%lb | EInvalid => "err invalid"%lb end.
 
-Record env := { e_caps : N * N * N * N * N; e_pt : list bytes; e_pk : list bytes; e_xo : list bytes; e_btx : list bytes; e_xpub : list bytes;
+Record env := { e_caps : N * N * N * N * N; e_pt : list bytes; e_pk : list bytes; e_xo : list bytes;
                 e_rip : list (bytes * bytes); e_h160 : list (bytes * bytes) }.
 Definition dummy_hash (_ : bytes) : bytes := [].     (* TapTree canonisation does not look at the node hashes *)
 Definition ser (e : env) : pset -> bytes :=
   match e_caps e with (mv, ci, co, cv, ch) =>
-    pset_serialize mv ci co cv ch (mem_bytes (e_pt e)) (mem_bytes (e_pk e)) (mem_bytes (e_xo e)) (mem_bytes (e_btx e)) (mem_bytes (e_xpub e))
+    pset_serialize mv ci co cv ch (mem_bytes (e_pt e)) (mem_bytes (e_pk e)) (mem_bytes (e_xo e))
       (kv_lookup (e_rip e)) sha256 (kv_lookup (e_h160 e)) sha256d dummy_hash dummy_hash end.
 Definition deser (e : env) : bytes -> pres pset :=
   match e_caps e with (mv, ci, co, cv, ch) =>
-    pset_deserialize mv ci co cv ch (mem_bytes (e_pt e)) (mem_bytes (e_pk e)) (mem_bytes (e_xo e)) (mem_bytes (e_btx e)) (mem_bytes (e_xpub e))
+    pset_deserialize mv ci co cv ch (mem_bytes (e_pt e)) (mem_bytes (e_pk e)) (mem_bytes (e_xo e))
       (kv_lookup (e_rip e)) sha256 (kv_lookup (e_h160 e)) sha256d dummy_hash dummy_hash end.
 Definition vcan (e : env) (t : vty) : bytes -> bytes -> pres bytes :=
   match e_caps e with (mv, ci, co, cv, ch) =>
-    vcanon mv ci co cv ch (mem_bytes (e_pt e)) (mem_bytes (e_pk e)) (mem_bytes (e_xo e)) (mem_bytes (e_btx e)) (mem_bytes (e_xpub e))
+    vcanon mv ci co cv ch (mem_bytes (e_pt e)) (mem_bytes (e_pk e)) (mem_bytes (e_xo e))
       (kv_lookup (e_rip e)) sha256 (kv_lookup (e_h160 e)) sha256d dummy_hash dummy_hash t end.
 
-Definition parse_env (caps pt pk xo btx xpub rip h160 : bytes) : option env :=
+Definition parse_env (caps pt pk xo rip h160 : bytes) : option env :=
   match caps5 caps, hexlist pt, hexlist pk, hexlist xo with
   | Some c, Some a, Some b, Some x =>
-      match hexlist btx, hexlist xpub, kvlist rip, kvlist h160 with
-      | Some t, Some xp, Some r, Some h => Some {| e_caps := c; e_pt := a; e_pk := b; e_xo := x; e_btx := t; e_xpub := xp; e_rip := r; e_h160 := h |}
-      | _, _, _, _ => None end
+      match kvlist rip, kvlist h160 with
+      | Some r, Some h => Some {| e_caps := c; e_pt := a; e_pk := b; e_xo := x; e_rip := r; e_h160 := h |}
+      | _, _ => None end
   | _, _, _, _ => None end.
 
 Definition run_bin (e : env) (input : bytes) : bytes :=
@@ -74,29 +74,22 @@ Definition run_text (e : env) (s : bytes) : bytes :=
                   | POk p => "ok "%lb ++ (match b64_enc (ser e p) with [] => "-"%lb | t => t end) end
   end.
 
-(* ELIP-100: add_(asset|token)_metadata = BTreeMap::insert on global.proprietary under prefix "pset_hww" (key data = asset id);
-   ELIP-102: set_abf = BTreeMap::insert on the input / output proprietary map under prefix "pset_liquidex" (no key data);
-   get = BTreeMap::get.  selector 0 asset metadata, 1 token metadata, 2 abf of input 0, 3 abf of output 0 *)
-Definition no : bytes -> bool := fun _ => false.
-Definition prop_idx (ds : list desc) : nat := idx ds (blit_of "proprietary"%lb).
-Definition upd_nth {A} (l : list A) (f : A -> A) : list A := match l with [] => [] | x :: r => f x :: r end.
+(* ELIP-100 / ELIP-102 through the model's accessors (Model/PsetTables.v: add_asset_metadata, add_token_metadata, set_abf_input,
+   set_abf_output and their getters).  selector 0 asset metadata, 1 token metadata, 2 abf of input 0, 3 abf of output 0 *)
 Definition run_elip (e : env) (input asset value : bytes) (sel : N) : bytes :=
   match deser e input with
   | PErr er => show_err er
   | POk p =>
-      match e_caps e with (mv, _, _, _, _) =>
-      let tg := Tg mv 0 0 0 0 no no no no no dummy_hash dummy_hash dummy_hash dummy_hash dummy_hash dummy_hash in
-      let ti := Ti mv 0 0 0 0 no no no no no dummy_hash dummy_hash dummy_hash dummy_hash dummy_hash dummy_hash in
-      let to := To mv 0 0 0 0 no no no no no dummy_hash dummy_hash dummy_hash dummy_hash dummy_hash dummy_hash in
-      let key := if sel <? 2 then prop_enc mv C07_PSET_HWW_PREFIX (n2b (if sel =? 0 then C07_PSBT_ELEMENTS_HWW_GLOBAL_ASSET_METADATA else C07_PSBT_ELEMENTS_HWW_GLOBAL_REISSUANCE_TOKEN)) asset
-                 else prop_enc mv C07_PSET_LIQUIDEX_PREFIX (n2b (if sel =? 2 then C07_PSBT_ELEMENTS_LIQUIDEX_IN_ABF else C07_PSBT_ELEMENTS_LIQUIDEX_OUT_ABF)) [] in
-      let p' := if sel <? 2 then {| p_global := set_keyed tg (p_global p) (prop_idx C07_GLOBAL_FIELDS) key value; p_inputs := p_inputs p; p_outputs := p_outputs p |}
-                else if sel =? 2 then {| p_global := p_global p; p_inputs := upd_nth (p_inputs p) (fun m => set_keyed ti m (prop_idx C07_INPUT_FIELDS) key value); p_outputs := p_outputs p |}
-                else {| p_global := p_global p; p_inputs := p_inputs p; p_outputs := upd_nth (p_outputs p) (fun m => set_keyed to m (prop_idx C07_OUTPUT_FIELDS) key value) |} in
+      match e_caps e with (mv, ci, co, cv, ch) =>
+      let pt := mem_bytes (e_pt e) in let pk := mem_bytes (e_pk e) in let xo := mem_bytes (e_xo e) in
+      let hr := kv_lookup (e_rip e) in let hh := kv_lookup (e_h160 e) in
+      let p' := if sel =? 0 then add_asset_metadata mv ci co cv ch pt pk xo hr sha256 hh sha256d dummy_hash dummy_hash p asset value
+                else if sel =? 1 then add_token_metadata mv ci co cv ch pt pk xo hr sha256 hh sha256d dummy_hash dummy_hash p asset value
+                else if sel =? 2 then set_abf_input mv ci co cv ch pt pk xo hr sha256 hh sha256d dummy_hash dummy_hash p 0 value
+                else set_abf_output mv ci co cv ch pt pk xo hr sha256 hh sha256d dummy_hash dummy_hash p 0 value in
       let get (q : pset) : option bytes :=
-        if sel <? 2 then get_key (p_global q) (prop_idx C07_GLOBAL_FIELDS) key
-        else if sel =? 2 then match p_inputs q with m :: _ => get_key m (prop_idx C07_INPUT_FIELDS) key | [] => None end
-        else match p_outputs q with m :: _ => get_key m (prop_idx C07_OUTPUT_FIELDS) key | [] => None end in
+        if sel =? 0 then get_asset_metadata mv q asset else if sel =? 1 then get_token_metadata mv q asset
+        else if sel =? 2 then get_abf_input mv q 0 else get_abf_output mv q 0 in
       let show (o : option bytes) := match o with Some v => show_hex v | None => "none"%lb end in
       let c := ser e p' in
       "ok "%lb ++ show (get p') ++ sp ++ show_hex c ++ sp ++
@@ -105,8 +98,8 @@ Definition run_elip (e : env) (input asset value : bytes) (sel : N) : bytes :=
 
 Definition run (args : list bytes) : bytes :=
   match args with
-  | mode :: caps :: pt :: pk :: xo :: btx :: xpub :: rip :: h160 :: rest =>
-      match parse_env caps pt pk xo btx xpub rip h160 with
+  | mode :: caps :: pt :: pk :: xo :: rip :: h160 :: rest =>
+      match parse_env caps pt pk xo rip h160 with
       | None => err "parse"
       | Some e =>
           if false then err "never"
